@@ -33,6 +33,7 @@ type FuncContract struct {
 	Pkg       string
 	Tags      []string
 	SafetyTags []string // tags of the implicit safety / lock obligations (default: Tags)
+	SafetyKinds []string // "safety slice index ...": only these kinds of implicit obligations are generated (default: all)
 	Requires  []*Clause
 	Ensures   []*Clause
 	AtRelease []*Clause
@@ -330,6 +331,7 @@ func parseContractFile(path, pkg string) (*ContractFile, error) {
 					curF.Pure = true
 				case "safety":
 					curF.Safety = true
+					curF.SafetyKinds = strings.Fields(it.text)
 				case "nosafety":
 					curF.NoSafety = true
 				case "inline":
